@@ -5,7 +5,9 @@ What is translated (from the modules imported from $VERIF_REPO, on every run, fa
     attributes, are what an instance uses), and that they are the COERCIBLE_DEFAULT / NOT_COERCIBLE_DEFAULT
     class attributes; the defaults of `superclass_auto_cast` and `match_any_of_union` (must be False);
   * the builtin `issubclass` matrix over the classes of the model's universe (Model/Typing.v `cls`) plus every
-    other class that occurs in one of the two tables (numbered `KExt n`).
+    other class that occurs in one of the two tables (numbered `KExt n`) and the registered classes whose instances
+    the drivers generate besides the exact builtins (`KSub n`: str/bytes/int/float/list/tuple/set/frozenset/dict/
+    PosixPath subclasses, a str-Enum, numpy.str_/int64/float64), with the builtin each behaves like.
 Anything of an unexpected shape raises TranslateError: the check then reports a broken tie instead of
 silently using a default.
 
@@ -13,8 +15,10 @@ Run as a module (`python -m harness.lib.translate_tables`) it only writes the fi
 that a fresh checkout can be built before the first check run).
 """
 import collections.abc
+import enum
 import inspect
 import os
+import pathlib
 import typing as ty
 
 VERIF = os.path.dirname(os.path.dirname(os.path.dirname(os.path.abspath(__file__))))
@@ -39,6 +43,68 @@ def universe():
         ("KSequence", ty.Sequence), ("KSetAbc", collections.abc.Set), ("KMapping", ty.Mapping),
         ("KPathLike", os.PathLike), ("KIterable", ty.Iterable), ("KFileSet", core.FileSet),
     ]
+
+
+# ---------------------------------------------------------------- registered classes values can have (KSub n)
+class StrSub(str):
+    pass
+
+
+class Colour(str, enum.Enum):
+    RED = "red"
+    A_B = "a-b"
+
+
+class BytesSub(bytes):
+    pass
+
+
+class IntSub(int):
+    pass
+
+
+class FloatSub(float):
+    pass
+
+
+class ListSub(list):
+    pass
+
+
+class TupleSub(tuple):
+    pass
+
+
+class SetSub(set):
+    pass
+
+
+class FrozensetSub(frozenset):
+    pass
+
+
+class DictSub(dict):
+    pass
+
+
+class PathSub(pathlib.PosixPath):
+    pass
+
+
+def registered():
+    """(name, class, Coq class of the builtin whose behaviour its instances have) — KSub n by position.
+    Subclasses of the modelled builtins, plus numpy scalars (numpy.int64 behaves like an int without being one)."""
+    out = [("StrSub", StrSub, "CStr"), ("Colour", Colour, "CStr"), ("BytesSub", BytesSub, "CBytes"),
+           ("IntSub", IntSub, "CInt"), ("FloatSub", FloatSub, "CFloat"), ("ListSub", ListSub, "CList"),
+           ("TupleSub", TupleSub, "CTuple"), ("SetSub", SetSub, "CSet"), ("FrozensetSub", FrozensetSub, "CFrozenset"),
+           ("DictSub", DictSub, "CDict"), ("PathSub", PathSub, "CPath")]
+    try:
+        import numpy
+        out += [("numpy.str_", numpy.str_, "CStr"), ("numpy.int64", numpy.int64, "CInt"),
+                ("numpy.float64", numpy.float64, "CFloat")]
+    except ImportError:
+        pass
+    return out
 
 
 def _real(c):
@@ -72,6 +138,10 @@ def translate():
     for n, c in uni:
         names[id(c)] = n
         objs.append((n, c))
+    subs = registered()
+    for i, (_, c, _shape) in enumerate(subs):
+        names[id(c)] = "(KSub %d)" % i
+        objs.append(("(KSub %d)" % i, c))
     ext = []
 
     def name_of(c):
@@ -124,6 +194,7 @@ def translate():
         if (b in d[a]) != want:
             raise TranslateError("builtin class relation changed: issubclass(%s, %s) is %s" % (a, b, not want))
     return {"rows": rows, "coercible": co, "not_coercible": nco,
+            "subs": [(n, shape) for n, _, shape in subs],
             "ext": ["%s.%s" % (getattr(c, "__module__", "?"), getattr(c, "__qualname__", repr(c))) for c in ext]}
 
 
@@ -138,8 +209,11 @@ def render(t):
         "(%s, [%s])" % (n, "; ".join(r)) for n, r in t["rows"]) + "].")
     lines.append("Definition live_coercible : list (cls * cls) :=\n  " + pairs(t["coercible"]) + ".")
     lines.append("Definition live_not_coercible : list (cls * cls) :=\n  " + pairs(t["not_coercible"]) + ".")
+    for i, (n, shape) in enumerate(t["subs"]):
+        lines.append("(* KSub %d = %s (behaves like %s) *)" % (i, n, shape))
+    lines.append("Definition live_subs : list cls :=\n  [" + "; ".join(shape for _, shape in t["subs"]) + "].")
     lines.append("Definition live : tables :=\n  {| t_rows := live_rows; t_coercible := live_coercible; "
-                 "t_not_coercible := live_not_coercible |}.")
+                 "t_not_coercible := live_not_coercible; t_subs := live_subs |}.")
     lines.append("Definition n_ext : nat := %d." % len(t["ext"]))
     return "\n".join(lines) + "\n"
 
